@@ -57,7 +57,7 @@ def kw_for(rng, method, allow_bad=True):
 
 
 CONTENT_CLASSES = ["plain", "multiline", "crlf", "cr", "bom", "nofinalnl", "empty", "multibyte", "large", "not_utf8"]
-HUGE_CLASSES = ["huge_crlf", "huge_mixed"]      # > 64 Ki characters: block-wise readers meet their block edges
+HUGE_CLASSES = ["huge_crlf", "huge_mixed", "boundary"]      # > 64 Ki characters: block-wise readers meet their block edges
 
 
 def make_content(rng, names, cls, tier):
@@ -78,6 +78,22 @@ def make_content(rng, names, cls, tier):
         unit = t + "\n" + "".join(rng.choice(["é", "λ", "日本", "😀", "ab1 ", "k=2 "]) for _ in range(20))
         target = rng.choice([9000, 17000]) if tier == "thorough" else rng.choice([600, 9000])
         t = (unit * (target // max(1, len(unit)) + 1))[:target]
+    if cls == "boundary":
+        # size coincidences: byte / character length exactly at (or one off) a typical block size, a multi-byte character
+        # straddling that offset, and a witness that ends exactly at the end of the text
+        n = rng.choice([4096, 8192, 8192, 16384, 65536])
+        delta = rng.choice([-1, 0, 0, 1, 2])
+        tail = rng.choice([t[-12:] or "ab12", "k=7", "abc", "42", "is", "x"])
+        filler_unit = (t[:30] or "ab 12 cd") + rng.choice(["\n", " ", "\r\n"])
+        if rng.random() < 0.5:
+            body_len = n + delta - len(tail)                     # ASCII only: characters == bytes
+            filler_unit = filler_unit.encode("ascii", "ignore").decode() or "ab 1\n"
+            body = (filler_unit * (body_len // len(filler_unit) + 1))[:body_len]
+            return (body + tail).encode("utf-8")
+        pre_len = n - 1                                           # a 2..4-byte character starts at byte n-1
+        filler_unit = filler_unit.encode("ascii", "ignore").decode() or "ab 1\n"
+        body = (filler_unit * (pre_len // len(filler_unit) + 1))[:pre_len]
+        return (body + rng.choice(["é", "日", "😀"]) + "z" * max(0, delta) + tail).encode("utf-8")
     if cls in HUGE_CLASSES:
         # short lines of varying length, so that line ends fall on every residue of any block size
         eol = "\r\n" if cls == "huge_crlf" else None
@@ -123,7 +139,7 @@ def generate(run_seed, tier):
     paths = wl.sample(PATHS, nfiles)
     files, classes = {}, {}
     enabled_classes = wl.sample(CONTENT_CLASSES, wl.randint(2, 5))
-    if wl.random() < (0.025 if tier == "quick" else 0.06):
+    if wl.random() < (0.04 if tier == "quick" else 0.08):
         enabled_classes = [wl.choice(HUGE_CLASSES)]
     for p in paths:
         nver = 1 if wl.random() < 0.55 else wl.randint(2, 3)
@@ -170,6 +186,12 @@ def generate(run_seed, tier):
                                       {"op": "gcp", "pattern": pid, "discard": True}]))
             path = wl.choice(paths)
             kw = kw_for(wl, m)
+            if "with_context" in m and wl.random() < 0.15:
+                try:
+                    tl = len(bytes.fromhex(files[path][wl.randrange(len(files[path]))]).decode("utf-8"))
+                    kw[wl.choice(["n_left", "n_right"])] = max(0, tl + wl.choice([-1, 0, 1]))   # window == text length
+                except UnicodeDecodeError:
+                    pass
             if m.startswith("iterate_"):
                 h = "h%d" % hcount
                 hcount += 1
